@@ -1462,6 +1462,25 @@ func (r *Run) opIter(cl *clientState, idx int, op *Op) {
 			}
 			got = append(got, g)
 		}
+		if tEnd := now(); tEnd != tnow {
+			// the simulated clock moved while the scan ran (the closer and clients park inside
+			// it): an entry whose expiry lies in between was "live" for the expectation computed
+			// at the start and "expired" for the items read later; such a scan is not judged
+			crossed := false
+			r.mu.Lock()
+			for _, vs := range r.model.Keys {
+				for i := range vs {
+					if e := vs[i].Exp; e > tnow && e <= tEnd {
+						crossed = true
+					}
+				}
+			}
+			r.mu.Unlock()
+			if crossed {
+				r.probe("iter_not_judged_expiry_crossed_during_scan")
+				continue
+			}
+		}
 		if len(r.drops) > 0 {
 			// ranges touched by a DropPrefix/DropAll are checked by the drop op itself
 			want = r.filterDropped(want)
